@@ -41,8 +41,11 @@ const nRates = 6
 // sceneExchange: context X (one provider, price in gold) has a pending new-batch entry at the current height;
 // the end blocker runs. Oracle answers 0..5: a rate; 6: an error result; 7: an answer without a rate;
 // 8: a rate with 19 decimals (the output schema admits it, sdk.NewDecFromStr does not); 9: no oracle registered.
-func sceneExchange() {
-	s := NewReqScene(ReqOpts{MaxProv: 1, OnlyState: 0, AllBound: true, NewBatch: true, Exchange: true})
+func sceneExchange() { sceneExchangeP(0, 0) }
+
+// sceneExchangeP: the same with nT time promotions and nV volume promotions on the gold price
+func sceneExchangeP(nT, nV int) {
+	s := NewReqScene(ReqOpts{MaxProv: 1, OnlyState: 0, AllBound: true, NewBatch: true, Exchange: true, NT: nT, NV: nV})
 	k, ctx, id, pre := s.K, s.Ctx, s.ID, s.Pre
 	bc, timeout := pre.BatchCounter, pre.Timeout
 	capAmt := pre.ServiceFeeCap.AmountOf(Denom)
@@ -90,7 +93,8 @@ func sceneExchange() {
 		return
 	}
 	rate := sdk.MustNewDecFromStr(rateTexts[answer])
-	fee := sdk.MaxInt(sdk.NewDecFromInt(b.Pricing.Price.AmountOf(Gold)).Mul(rate).TruncateInt(), sdk.OneInt())
+	dT, dV := RefDiscounts(b.Pricing, s.Now, s.Vol0[0])
+	fee := sdk.MaxInt(sdk.NewDecFromInt(b.Pricing.Price.AmountOf(Gold)).Mul(dT).Mul(dV).Mul(rate).TruncateInt(), sdk.OneInt())
 	elig := vf.All(b.Available, b.QoS <= uint64(timeout), fee.LTE(capAmt))
 	issue := vf.And(elig, vf.Or(pre.SuperMode, s.BalC0.GTE(fee)))
 	if issue {
@@ -127,11 +131,15 @@ func sceneExchange() {
 	}
 }
 
-func C01_Exchange() { focus = "C01"; sceneExchange() }
-func C02_Exchange() { focus = "C02"; sceneExchange() }
-func C06_Exchange() { focus = "C06"; sceneExchange() }
-func C07_Exchange() { focus = "C07"; sceneExchange() }
-func C11_Exchange() { focus = "C11"; sceneExchange() }
-func C20_Exchange() { focus = "C20"; sceneExchange() }
-func C09_Exchange() { focus = "C09"; sceneExchange() }
-func C10_Exchange() { focus = "C10"; sceneExchange() }
+func C07T_ExchangeByTime()   { focus = "C07"; sceneExchangeP(1, 0) }
+func C07T_ExchangeByVolume() { focus = "C07"; sceneExchangeP(0, 2) }
+func C01T_ExchangeByTime()   { focus = "C01"; sceneExchangeP(1, 0) }
+func C06T_ExchangeByVolume() { focus = "C06"; sceneExchangeP(0, 2) }
+func C01_Exchange()          { focus = "C01"; sceneExchange() }
+func C02_Exchange()          { focus = "C02"; sceneExchange() }
+func C06_Exchange()          { focus = "C06"; sceneExchange() }
+func C07_Exchange()          { focus = "C07"; sceneExchange() }
+func C11_Exchange()          { focus = "C11"; sceneExchange() }
+func C20_Exchange()          { focus = "C20"; sceneExchange() }
+func C09_Exchange()          { focus = "C09"; sceneExchange() }
+func C10_Exchange()          { focus = "C10"; sceneExchange() }
